@@ -295,6 +295,18 @@ def noCallUnderLock (tbl : List Access) : Bool :=
     | .spawn _ => a.lock = .free
     | _ => true
 
+def isSync {F : Type} : Stmt F → Bool
+  | .acc .. => false
+  | .locked .. => false
+  | _ => true
+
+/-- a program that uses the Service as intended: every thread executes, in any order and any number
+    of times, statements of functions of the table (plus spawn / join / channel operations), and
+    functions executed by two different threads may overlap -/
+structure IntendedUse (tbl : List Access) (P : Prog SField) (fns : Tid → List Fn) : Prop where
+  stmts : ∀ t x, x ∈ code P t → isSync x = true ∨ ∃ f ∈ fns t, x ∈ fnStmts tbl f
+  overlap : ∀ t u, t ≠ u → ∀ f ∈ fns t, ∀ g ∈ fns u, mayOverlap tbl f g = true
+
 /-! ### facts about the code that the counter argument uses (checked on the regenerated table) -/
 
 def eventsOf (tbl : List Access) (f : Fn) : List Access := tbl.filter (fun a => a.fn = f)
